@@ -661,7 +661,7 @@ class C05(Prop):
             # F11 region: two images that differ only in subvariant (and content) - indistinguishable once it is gone
             v, a, idx = spec["adds"][0]
             twin = copy.deepcopy(spec["pool"][idx])
-            twin["path"] = "twin/" + twin["path"]
+            twin["path"] = "twin11/" + twin["path"]     # not "twin/": the shared generator has its own twin of that name (same path twice in a cell is outside the quantifier)
             twin["subvariant"] = twin["subvariant"] + "2"
             twin["checksums"] = dict((k, x[::-1]) for k, x in twin["checksums"].items())
             spec["pool"].append(twin)
